@@ -78,7 +78,7 @@ class SUxn(Sym):
         from tawazi.node import UsageExecNode
 
         classes = cls if isinstance(cls, tuple) else (cls,)
-        return UsageExecNode in classes
+        return UsageExecNode in classes or any(getattr(c, "__name__", "") == "SUxnCtor" for c in classes)
 
 
 class SXn(Sym):
